@@ -233,6 +233,44 @@ def run(ctx, F):
     ctx.judge(okg, "C01.forwarded-read", "the forwarding pointer is read only once the state says FORWARDED", expected="read_forwarding_pointer guarded by the FORWARDED state after the spin loop", found=str([(show(strip(t))[:50]) for b, t, g in rows]),
               where=where(sg), key="C01.forwarded-read|spin")
 
+    # ---- nursery-untraced-not-swept: a nursery GC of a generational plan traces only the nursery and the LOS; a common space
+    # that is not traced must not be swept by the nursery GC (its young-looking objects are all unmarked)
+    cp = "plan::global::CommonPlan::"
+    tn = F.fn("plan::generational::global::CommonGenPlan::trace_object_nursery")
+    traced = set()
+    for c in live_calls(tn):
+        if c.name == "trace_object" and c.args:
+            s = show(strip(tn.flow.arg_tree(c, 0)))
+            m = re.search(r"(nursery|get_los|get_nonmoving|get_immortal)", s)
+            if m:
+                traced.add({"nursery": "nursery", "get_los": "los", "get_nonmoving": "nonmoving", "get_immortal": "immortal"}[m.group(1)])
+    ctx.judge({"nursery", "los"} <= traced, "C01.nursery-untraced-not-swept", "a nursery trace follows references into the nursery and the LOS", expected="trace_object on self.nursery and common.los", found=str(sorted(traced)),
+              where=where(tn), key="C01.nursery-untraced-not-swept|traced")
+    SWEEPS = re.compile(r"::(generate_sweep_tasks|sweep_large_pages|release_pages|release_block|release_multiple_pages|sweep|release_packet_done|reset)$")
+    nrel = 0
+    for fnq in (cp + "release", cp + "release_nonmoving_space", cp + "prepare", cp + "prepare_nonmoving_space"):
+        g = F.fn(fnq)
+        flag = "arg%d" % (3 if fnq.endswith("::release") or fnq.endswith("::prepare") else 2)
+        for c in live_calls(g):
+            if c.name not in ("release", "prepare") or not c.args or not c.q:
+                continue
+            recv = show(strip(g.flow.arg_tree(c, 0)))
+            m = re.match(r"^arg1\.(immortal|los|nonmoving)$", recv)
+            if not m:
+                continue
+            space = m.group(1)
+            if space in traced:
+                continue
+            # does this callee give memory back / reset mark state wholesale?
+            targets = [q for q in F.cg.reach([c.res or c.q]) if SWEEPS.search(q) and not q.startswith("std::") and "Atomic" not in q]
+            guarded = any(show(p.tree) == flag and p.val is True for p in guards(g, c.bb))
+            nrel += 1
+            ty = c.ga[0] if c.ga else (c.res or c.q)
+            ctx.judge(guarded or not targets, "C01.nursery-untraced-not-swept", "%s: %s.%s() of a space the nursery trace does not follow" % (short(fnq), space, c.name),
+                      expected="only in full-heap GCs (guarded by full_heap), unless the call cannot sweep", found="unguarded; reaches %s" % [short(t) for t in targets[:3]] if not guarded else "guarded by full_heap",
+                      where=where(g, c.line), key="C01.nursery-untraced-not-swept|%s|%s|%s" % (space, c.name, last_seg(re.sub(r"<.*$", "", (c.res or c.q).rsplit("::", 1)[0]))))
+    ctx.floor("C01.nursery-untraced-not-swept", nrel, 2, "prepare/release calls on untraced common spaces")
+
     # ---- dispatch-total
     np_ = 0
     for adt in sorted(F.adts):
